@@ -994,6 +994,10 @@ lua_statements = [
         mixin=[
             "lua_mixin_callfunction",
         ],
+        # The function returns one value.
+        post_call=[
+            "lua_pushlightuserdata({LUA_state_var}, (void *) {cxx_var});",
+        ],
     ),
     #####
     # bool
